@@ -257,7 +257,8 @@ func cmdCheck(args []string) int {
 				case "panic":
 					reproduced = o.Outcome == "panic" || o.Outcome == "crash"
 				case "hang":
-					reproduced = o.Outcome == "hang"
+					// unbounded recursion ends natively in a fatal stack overflow (the process dies)
+					reproduced = o.Outcome == "hang" || o.Outcome == "crash"
 				case "write":
 					reproduced = o.Outcome == "race" || o.Outcome == "fail"
 				}
